@@ -119,6 +119,7 @@ structure ConcCase where
   ejoin : Option (List String) := none
   lazylog : Option (List String) := none
   stress : Option String := none
+  followups : Option String := none
   aborted : Bool := false
   bad : List String := []
   hash : UInt64 := 7
@@ -470,6 +471,14 @@ def processCase (cs : ConcCase) : CaseOut := Id.run do
                   match lazyOk q0 m.pushed (progs.map lazyTagsOf) ll with
                   | .error why => monLine := some s!"MON C10 case={cs.id} line={evBase + i + 4} {why} impl=[{" ".intercalate (ll.map toString)}]"
                   | .ok () => pure ()
+  -- actions with an odd tag are queued with `exec_mut` and queue a follow-up (plain `exec`) when they run: every
+  -- follow-up must have run exactly once when `maintain` returns (the harness compares and prints its verdict)
+  if monLine.isNone then
+    match cs.followups with
+    | some f =>
+      if f != "ok" then
+        monLine := some s!"MON C10 case={cs.id} line={cs.startLine} actions queued by running exec_mut actions did not all run exactly once in the same maintain: {f}"
+    | none => pure ()
   if let some d := diffLine then out := out ++ [d]
   if let some m := monLine then out := out ++ [m]
   if let some m := mon17 then out := out ++ [m]
@@ -508,6 +517,7 @@ def addLine (cs : ConcCase) (line : String) : ConcCase :=
   | ["ejoin"] => { cs with ejoin := some ((toks r).drop 1) }
   | ["lazylog"] => { cs with lazylog := some ((toks r).drop 1) }
   | "stress" :: _ => { cs with stress := some (norm r) }
+  | ["followups"] => { cs with followups := some (norm r) }
   | "aborted" :: _ => { cs with aborted := true }
   | _ => { cs with bad := cs.bad ++ [s!"unknown line: {line}"] }
 
